@@ -154,9 +154,10 @@ def run(ctx, res):
     for i in range(ctx.n(250, 5000)):
         nl = rng.choice([0, 1, 2, 5, 12])
         nums = sorted(rng.sample(range(1, 65536), nl))
-        text = "".join(gen_line(rng, kws, n) + "\n" for n in nums)
+        eol = rng.choice(["\n", "\n", "\n", "\r\n", "\r"])          # listings written by other systems (and by moto_bas2lst --dos)
+        text = "".join(gen_line(rng, kws, n) + eol for n in nums)
         if nl and rng.random() < 0.2:
-            text = text[:-1]
+            text = text[:-len(eol)]
         status, bas = B.lst2bas(ctx, text)
         case = {"text": text}
         st.see(text, nontrivial=nl > 0)
@@ -165,7 +166,9 @@ def run(ctx, res):
             res.sample({"text": text})
     # structure only: long programs and big line numbers
     st = res.stream("structure")
-    for size in (0, 1, 300):
+    # 2500 and 4300 lines: images of about 32 and 55 KB, link pointers beyond 0x8000 and up to the top of the 16-bit address space
+    # (0x25A4 + 55 KB is just below 0xFFFF; a larger program has no 16-bit links)
+    for size in (0, 1, 300, 2500, 4300):
         text = "".join(f"{10 * (i + 1)} PRINT \"{i}\"\n" for i in range(size))
         status, bas = B.lst2bas(ctx, text)
         st.see(text, nontrivial=size > 0)
